@@ -7,8 +7,15 @@ package encoding
 import (
 	"encoding/json"
 	"fmt"
+	"math/big"
 	"reflect"
 )
+
+// a flat struct holding, by value, a field whose JSON marshaller has a pointer receiver
+type hWithBig struct {
+	N big.Int `cbor:"1,keyasint" json:"n"`
+	X int     `cbor:"4,keyasint" json:"x"`
+}
 
 type hEmptyish struct {
 	B []byte         `cbor:"1,keyasint,omitempty" json:"b,omitempty"`
@@ -78,5 +85,26 @@ func boundedStrictOmitempty() (ok bool) {
 			}
 		}
 	}
+	// a by-value field whose MarshalJSON has a pointer receiver: the plain marshaller, given the struct's
+	// address, calls it (the field is addressable); the embedding-aware one marshals a copy of the field
+	{
+		w := &hWithBig{X: 1}
+		w.N.SetInt64(5)
+		j, err := SerializeStructToJSON(w)
+		pj, perr := json.Marshal(w)
+		if err != nil || perr != nil {
+			return false
+		}
+		var j1, j2 map[string]interface{}
+		if json.Unmarshal(j, &j1) != nil || json.Unmarshal(pj, &j2) != nil {
+			return false
+		}
+		if !reflect.DeepEqual(j1, j2) {
+			fmt.Printf("bounded: CASE %s/json-pointer-marshaler: a flat struct holding a math/big.Int by value: embedding-aware output %s, the plain marshaller's %s\n", A, j, pj)
+			ok = false
+		}
+	}
+	// the audit ran to its end: every failure it saw was printed as a CASE line (see govc, failingCases)
+	fmt.Printf("bounded: END %s\n", A)
 	return ok
 }
